@@ -34,8 +34,16 @@ theorem toIR_fold_intervals {S : SchemaView} {q : Query} {ir : IRQuery} (h : toI
   simp only [wfIntervals, Bool.and_eq_true]
   exact ⟨(toIR_unique h).2, (toIR_numbering_endpoints h).2.2⟩
 
+/-- Clause 7: every variable use (in a vertex filter or a fold post-filter, at any depth) names a
+variable of the query-level `variables` map, and the type recorded there is a scalar-only subtype
+of the type recorded at the use (`vref.variable_type.is_scalar_only_subtype(var_type)`). -/
+theorem toIR_variables_recorded {S : SchemaView} {q : Query} {ir : IRQuery}
+    (h : toIR S q = .ok ir) : wfVarsC ir.variables ir.rootComponent = true :=
+  toIR_vars h
+
 end TF.C11
 
 #print axioms TF.C11.toIR_edge_numbering
 #print axioms TF.C11.toIR_ids_unique
 #print axioms TF.C11.toIR_fold_intervals
+#print axioms TF.C11.toIR_variables_recorded
